@@ -16,7 +16,7 @@ from vf import world
 
 SC = ['', 's1', 's1/s2', 's1/s2/s3', 's2', 's2/s1']          # binding scopes
 ST = [[], ['s1'], ['s1', 's2'], ['s1', 's2', 's3'], ['s2'], ['s2', 's1']]
-SHAPES = ['plain', 'dflt', 'kwo', 'var', 'kws', 'Kinit', 'Kreg', 'Kmeth.meth']
+SHAPES = ['plain', 'dflt', 'kwo', 'var', 'kws', 'Kinit', 'Kreg', 'Kmeth.meth', 'varkwo']
 NFORM = 5
 
 
@@ -63,11 +63,11 @@ def c01_inject(nsc: int, shape: int, stack: int, form: int, ma: int, mb: int,
                vb0: int, vb1: int, vb2: int, vb3: int, vb4: int, vb5: int,
                ca: int, cb: int, cx: int) -> bool:
   """
-  pre: 0 <= shape < 8 and 0 <= stack < nsc and 0 <= form < 5
+  pre: 0 <= shape < 9 and 0 <= stack < nsc and 0 <= form < 5
   pre: 0 <= ma < 3 and 0 <= mb < 3
   """
   world.fresh()
-  shape = rt.pick(shape, 8)
+  shape = rt.pick(shape, 9)
   stack = rt.pick(stack, nsc)
   form = rt.pick(form, NFORM)
   ma = rt.pick(ma, 3)
@@ -77,8 +77,8 @@ def c01_inject(nsc: int, shape: int, stack: int, form: int, ma: int, mb: int,
     rt.discard()                        # positional only as a signature prefix
   if name == 'kwo' and (ma == 1 or mb == 1):
     rt.discard()
-  if name == 'kws' and mb == 1:
-    rt.discard()
+  if name in ('kws', 'varkwo') and mb == 1:
+    rt.discard()                        # b is **kwargs-only / keyword-only there
   pa = [pa0, pa1, pa2, pa3, pa4, pa5]
   pb = [pb0, pb1, pb2, pb3, pb4, pb5]
   va = [va0, va1, va2, va3, va4, va5]
@@ -111,6 +111,9 @@ def c01_inject(nsc: int, shape: int, stack: int, form: int, ma: int, mb: int,
   extra = name == 'var' and ma == 1 and mb == 1
   if extra:
     pos.append(cx)
+  surplus = name == 'varkwo' and ma == 1      # surplus positionals go to *rest, never to keyword-only b
+  if surplus:
+    pos.extend([cx, cx])
 
   # ---- oracle ---------------------------------------------------------
   has_a, bound_a = model_value(active, pres_a, va, nsc)
@@ -164,6 +167,12 @@ def c01_inject(nsc: int, shape: int, stack: int, form: int, ma: int, mb: int,
   _, args, kwargs, seen_scope = world.LOG[0]
   if seen_scope != active:
     return False
+  if name == 'varkwo':
+    if not rt.same('a', args[0], exp_a) or list(kwargs) != ['b'] or not rt.same('b', kwargs['b'], exp_b):
+      return False
+    if surplus:
+      return len(args) == 3 and rt.same('x', args[1], cx) and rt.same('x', args[2], cx)
+    return len(args) == 1
   if name == 'kws':
     if not rt.same('a', args[0], exp_a):
       return False
@@ -258,17 +267,17 @@ HARNESSES = {
                     ca=13, cb=14, cx=15)],
         tiers={
             'quick': dict(
-                split=dict(shape=list(range(8)), stack=[0, 2, 3, 4]),
+                split=dict(shape=list(range(9)), stack=[0, 2, 3, 4]),
                 fixed=dict(nsc=5, pa4=False, pa5=False, pb5=False, pb0=False, pb1=False,
                            pb2=False, pb3=False, form=0), budget_s=100),
             'thorough': dict(
-                split=dict(shape=list(range(8)), stack=list(range(6)),
+                split=dict(shape=list(range(9)), stack=list(range(6)),
                            form=list(range(5))),
                 fixed=dict(nsc=6, pb0=False, pb1=False, pb3=False, pb5=False),
                 budget_s=900),
         },
         bounds='quick: parameter a bound at any subset of the prefix chain "", s1, s1/s2, s1/s2/s3, parameter b at the '
-               'non-prefix scope s2; active stacks [], [s1,s2], [s1,s2,s3], [s2]; 8 shapes; every caller split. '
+               'non-prefix scope s2; active stacks [], [s1,s2], [s1,s2,s3], [s2]; 9 shapes (incl. *args + keyword-only with surplus positionals); every caller split. '
                'thorough: 6 binding scopes, 6 stacks, 5 ways of entering the stack. values: all ints',
     ),
     'c01_introspect': dict(
